@@ -6,6 +6,7 @@ package main
 // installs its own oracle.
 
 import (
+	"os"
 	"bytes"
 	"encoding/hex"
 	"fmt"
@@ -743,6 +744,22 @@ func installStringModels(m *Machine) {
 	installErrorsModels(m)
 	installRegexpModel(m)
 	installSyncMapModel(m)
+	installSlicesModels(m)
+	m.Hooks["fmt.Appendf"] = func(m *Machine, st *State, call *ssa.CallCommon, args []Val) ([]Val, bool) {
+		pre, ok := exactBytes(m, st, args[0])
+		if !ok {
+			return nil, false
+		}
+		alts, ok := sprintfModel(m, st, call, args[1:])
+		if !ok || len(alts) != 1 {
+			return nil, false
+		}
+		txt, isStr := alts[0].(string)
+		if !isStr {
+			return nil, false
+		}
+		return []Val{byteSliceVal(st, append(append([]byte(nil), pre...), txt...))}, true
+	}
 	if _, has := m.Hooks["bytes.TrimLeftFunc"]; !has {
 		installFuncModels(m)
 	}
@@ -883,7 +900,7 @@ func unicodePred(v Val) func(rune) bool {
 
 // repoPred turns a repository function value func(rune) bool into a Go
 // predicate evaluated by the abstract interpreter itself.
-func repoPred(m *Machine, v Val, failed *bool) func(rune) bool {
+func repoPred(m *Machine, cur *State, v Val, failed *bool) func(rune) bool {
 	fv, ok := v.(*FuncV)
 	if !ok {
 		return nil
@@ -892,16 +909,22 @@ func repoPred(m *Machine, v Val, failed *bool) func(rune) bool {
 	if !ok || f.Blocks == nil || !inRepoOrRef(f) {
 		return nil
 	}
+	var scratch *State
 	return func(r rune) bool {
-		st := &State{Heap: map[int]*HObj{}, Notes: map[string]bool{}}
-		if m.Base != nil {
-			st = m.Base.Clone() // predicates may consult package-level tables
-			st.Status = stRun
-			st.Frames = nil
+		// the predicate runs on a copy of the caller's state (it may capture variables of the calling function
+		// and consult package-level tables); it is a query, so one copy serves every rune
+		if scratch == nil {
+			scratch = cur.Clone()
 		}
+		st := scratch
+		st.Status = stRun
+		st.Frames = nil
 		st.push(f, []Val{int64(r)}, fv.Bind)
 		out := m.Run(st)
 		if len(out) != 1 || out[0].Status != stRet {
+			if os.Getenv("GDSA_DEBUG") != "" {
+				fmt.Fprintf(os.Stderr, "predicate %s on %q: %s\n", f, string(r), retDesc(out))
+			}
 			*failed = true
 			return false
 		}
@@ -943,7 +966,7 @@ func installFuncModels(m *Machine) {
 			pr := unicodePred(args[1])
 			failed := false
 			if pr == nil {
-				pr = repoPred(m, args[1], &failed)
+				pr = repoPred(m, st, args[1], &failed)
 			}
 			if !ok || pr == nil {
 				return nil, false
@@ -967,7 +990,7 @@ func installFuncModels(m *Machine) {
 			pr := unicodePred(args[1])
 			failed := false
 			if pr == nil {
-				pr = repoPred(m, args[1], &failed)
+				pr = repoPred(m, st, args[1], &failed)
 			}
 			if !ok || pr == nil {
 				return nil, false
@@ -993,7 +1016,7 @@ func installFuncModels(m *Machine) {
 		pr := unicodePred(args[1])
 		failed := false
 		if pr == nil {
-			pr = repoPred(m, args[1], &failed)
+			pr = repoPred(m, st, args[1], &failed)
 		}
 		if !ok || pr == nil {
 			return nil, false
